@@ -205,6 +205,48 @@ fn c03(g: &mut Gen) {
             }
         }
     }
+    // encoders (and the responses process_packet itself encodes) on a context with a history behind it:
+    // requests with every instance ID, EID assignments, UUID updates, corrupted traffic
+    let n = g.n(250, 10_000);
+    let keys = all_keys();
+    for _ in 0..n {
+        let cfg = gen_cfg(&mut g.rng);
+        g.case("hist", &cfg, |s, r| {
+            let k = 1 + r.below(6) as usize;
+            history(s, k, r);
+            for _ in 0..3 {
+                let key = keys[r.below(keys.len() as u64) as usize];
+                let c = gen_call(r, key, false, None);
+                let b = buf_for(r, &c);
+                s.op(enc_op(&c, b));
+            }
+        });
+    }
+}
+
+/// encoder calls on a context with a history behind it (requests with every instance ID, EID assignments,
+/// UUID updates, corrupted traffic): catches state that leaks into the encoders
+fn hist_encode_stratum(g: &mut Gen, n: usize, keys: &[(bool, u32)], repeat_call: bool) {
+    for _ in 0..n {
+        let cfg = gen_cfg(&mut g.rng);
+        g.case("hist", &cfg, |s, r| {
+            let k = 1 + r.below(6) as usize;
+            history(s, k, r);
+            for _ in 0..3 {
+                let key = keys[r.below(keys.len() as u64) as usize];
+                let c = gen_call(r, key, false, None);
+                let b = buf_for(r, &c);
+                if let Obs::Enc(Some(n), out) = s.op(enc_op(&c, b)) {
+                    if repeat_call {
+                        let b2 = poison(r, n + 2, 1);
+                        s.op(enc_op(&c, b2));
+                    } else if n <= out.len() && n >= 3 && r.chance(1, 2) {
+                        s.op(Op::GetLength(out[..3].to_vec()));
+                    }
+                }
+            }
+        });
+    }
 }
 
 // ------------------------------------------------------------------------------------------------ C04
@@ -232,6 +274,7 @@ fn c04_case(g: &mut Gen, stratum: &str, cfg: &Cfg, key: (bool, u32), total: Opti
 }
 
 fn c04(g: &mut Gen) {
+    { let n = g.n(120, 5000); let k = all_keys(); hist_encode_stratum(g, n, &k, false); }
     let per = g.n(12, 300);
     for key in all_keys() {
         for _ in 0..per {
@@ -269,6 +312,7 @@ fn c04(g: &mut Gen) {
 
 // ------------------------------------------------------------------------------------------------ C05
 fn c05(g: &mut Gen) {
+    { let n = g.n(120, 5000); let k = all_keys(); hist_encode_stratum(g, n, &k, false); }
     let per = g.n(40, 1500);
     for key in all_keys() {
         for _ in 0..per {
@@ -291,6 +335,7 @@ fn c05(g: &mut Gen) {
 
 // ------------------------------------------------------------------------------------------------ C06
 fn c06(g: &mut Gen) {
+    { let n = g.n(120, 5000); let k: Vec<(bool, u32)> = REQ_IDS.iter().filter(|i| **i != 20).map(|i| (true, *i)).collect(); hist_encode_stratum(g, n, &k, false); }
     let per = g.n(60, 2500);
     for id in REQ_IDS {
         if id == 20 { continue; }
@@ -329,6 +374,7 @@ fn c06(g: &mut Gen) {
 
 // ------------------------------------------------------------------------------------------------ C07
 fn c07(g: &mut Gen) {
+    { let n = g.n(120, 5000); let k: Vec<(bool, u32)> = RESP_IDS.iter().map(|i| (false, *i)).collect(); hist_encode_stratum(g, n, &k, false); }
     let per = g.n(120, 5000);
     for id in RESP_IDS {
         for _ in 0..per {
@@ -383,6 +429,7 @@ fn c07(g: &mut Gen) {
 
 // ------------------------------------------------------------------------------------------------ C08
 fn c08(g: &mut Gen) {
+    { let n = g.n(120, 5000); let k = vec![(true, 20u32), (true, 31), (false, 31), (true, 32), (false, 32), (true, 33), (false, 33)]; hist_encode_stratum(g, n, &k, false); }
     let per = g.n(150, 6000);
     for key in [(true, 20u32), (true, 31), (false, 31), (true, 32), (false, 32), (true, 33), (false, 33)] {
         for _ in 0..per {
@@ -413,6 +460,7 @@ fn c08(g: &mut Gen) {
 
 // ------------------------------------------------------------------------------------------------ C16
 fn c16(g: &mut Gen) {
+    { let n = g.n(120, 5000); let k = all_keys(); hist_encode_stratum(g, n, &k, true); }
     let per = g.n(25, 1000);
     for key in all_keys() {
         for i in 0..per {
